@@ -52,6 +52,9 @@ int main(int argc, char **argv)
             int chain_class = (int) vh_below(100);
             int chain_left = chain_class < 64 ? 0 : chain_class < 74 ? (int) vh_range(9, 11) : chain_class < 84 ? (int) vh_range(19, 21) : chain_class < 92 ? (int) vh_range(1, 4)
                            : chain_class < 94 ? (int) vh_range(39, 41) : chain_class < 96 ? (int) vh_range(79, 81) : chain_class < 98 ? (int) vh_range(159, 162) : vh_coin(50) ? (int) vh_range(240, 250) : (int) vh_range(251, 257);
+            /* a chain that reaches the file index limit has its last %include refused; the generator's running depth counts that file's begin/end
+             * lines all the same, so keep such trees away from the 255 context levels by more than one file's worth of lines */
+            if (chain_left > 250 && target_depth > 200) target_depth = 200;
             int files_left = chain_left ? (int) vh_below(2) : (int) vh_below(4);
             expansion_case = vh_coin(10);
             null_replaced = vh_coin(50);
